@@ -167,6 +167,8 @@ func execC20(t *testing.T, c C20Case) (v Verdict) {
 	sst := make([]*recStats, c.SStats)
 	cst := make([]*recStats, c.CStats)
 	serveReturned := false
+	afterDone := false
+	var afterErr error
 	var release chan struct{}
 	res := kit.Bubble(t, func() {
 		var sopts []goat.ServerOption
@@ -407,6 +409,28 @@ func execC20(t *testing.T, c C20Case) (v Verdict) {
 			traces[n] = append([]string{}, trace...)
 			mu.Unlock()
 		}
+		if c.Outcome == "transport" {
+			// an RPC started on the connection after it has failed: must be refused, with no half-open stats
+			actx, acancel := context.WithTimeout(context.Background(), time.Hour)
+			adone := make(chan struct{})
+			go func() {
+				defer close(adone)
+				if c.Kind == kit.KindUnary {
+					_, afterErr = kit.Invoke(actx, cc, "u", []byte("after"))
+				} else {
+					var cs grpc.ClientStream
+					cs, afterErr = cc.NewStream(actx, kit.StreamDescFor(c.Kind), kit.FullMethod("s"))
+					if afterErr == nil {
+						_, afterErr = kit.RecvBytes(cs)
+					}
+				}
+				afterDone = true
+			}()
+			kit.Settle()
+			acancel()
+			kit.Settle()
+			<-adone
+		}
 		w.Shutdown()
 		cc.Close()
 		kit.Settle()
@@ -565,6 +589,35 @@ func execC20(t *testing.T, c C20Case) (v Verdict) {
 					}
 				}
 			}
+			h.mu.Unlock()
+		}
+	}
+	if c.Outcome == "transport" {
+		if !afterDone {
+			v.failf("an RPC started after the connection had failed never returned")
+		} else if afterErr == nil {
+			v.failf("an RPC started after the connection had failed succeeded")
+		}
+		// its stats: nothing at all, or a complete Begin..End pair with an error - never half
+		for _, h := range cst {
+			h.mu.Lock()
+			if ev, ok := h.events[c.RPCs+1]; ok && len(ev) > 0 {
+				nb, ne := 0, 0
+				for _, e := range ev {
+					if e == "Begin" {
+						nb++
+					}
+					if e == "End" {
+						ne++
+					}
+				}
+				if nb != 1 || ne != 1 || ev[0] != "Begin" {
+					v.failf("client stats handler %d: the RPC refused on the failed connection produced events %v: neither none nor one Begin..End pair", h.idx, ev)
+				} else if h.endErr[c.RPCs+1][0] == nil {
+					v.failf("client stats handler %d: the refused RPC ended with a nil error", h.idx)
+				}
+			}
+			delete(h.events, c.RPCs+1)
 			h.mu.Unlock()
 		}
 	}
